@@ -15,14 +15,17 @@ var NonWf = map[string]string{
 	"wallet.RawMessage":                  "helper struct with a plain *boc.Cell field (a cell stored inline replaces the cell under construction)",
 }
 
-var unprovedCodec = map[string]string{}
+var unprovedCodec = map[string]string{
+	"wallet.MessageV5":         "wallet.W5ExtendedActions",
+	"wallet.W5ExtendedActions": "wallet.W5ExtendedActions",
+}
 
 // get-method result structs: filled from the VM stack, never laid out in a cell; they hold boc.Cell / Any values inline
 var getMethodResults = []string{
 	"abi.GetAmmContractData_StormResult", "abi.GetChannelDataResult", "abi.GetCollectionDataResult",
 	"abi.GetDelegationStateResult", "abi.GetExchangeSettings_StormResult", "abi.GetExecutorBalances_StormResult",
 	"abi.GetExecutorVaultsWhitelist_StormResult", "abi.GetFixPriceDataV4Result", "abi.GetJettonDataResult",
-	"abi.GetLpData_MegatonResult", "abi.GetOracleData_StormResult", "abi.GetPoolFullDataResult",
+	"abi.GetLpData_MegatonResult", "abi.GetMultisigDataResult", "abi.GetOracleData_StormResult", "abi.GetPoolFullDataResult",
 	"abi.GetPositionManagerContractData_StormResult", "abi.GetReferralData_StormResult",
 	"abi.GetReferralVaultsWhitelist_StormResult", "abi.GetRouterData_StonfiResult",
 	"abi.GetVaultContractData_StormResult", "abi.GetVaultWhitelistedAddresses_StormResult",
